@@ -1,7 +1,32 @@
 import Driver.Wire
-/-! Driver commands of the Vm area (filled in by the area's owner). -/
+import Marwood.Vm.RunLoop
+/-! Driver commands of the Vm area. -/
 namespace Marwood.Driver.Vm
+open Marwood Marwood.Vm
 
-def handle (_cmd : String) (_args : List String) : Option String := none
+/-- a machine whose only content is "the k-th instruction halts / fails": enough to run the
+    model of `run_count` against the instruction counts observed on the real VM -/
+def traceMachine (k : Nat) (halts : Bool) : Machine Nat Unit :=
+  ⟨fun i => if i + 1 = k then (if halts then .halt (i + 1) else .fail () (i + 1)) else .next (i + 1), id⟩
+
+/-- slice by slice: (kind, instructions executed in the slice) -/
+def slices (m : Machine Nat Unit) : List Nat → Nat → List String
+  | [], _ => []
+  | b :: bs, s =>
+    match runCount m b s with
+    | .paused s' => s!"p{s' - s}" :: slices m bs s'
+    | .done s' => [s!"d{s' - s}"]
+    | .error _ s' => [s!"e{s' - s}"]
+    | .fuel => ["fuel"]
+
+def handle (cmd : String) (args : List String) : Option String :=
+  match cmd, args with
+  | "slices", [k, kind, bs] => do
+      let k ← k.toNat?
+      let bs ← (bs.splitOn ",").mapM (·.toNat?)
+      if kind != "h" && kind != "f" then none
+      else if bs.any (· == 0) then none
+      else pure ("ok " ++ " ".intercalate (slices (traceMachine k (kind == "h")) bs 0))
+  | _, _ => none
 
 end Marwood.Driver.Vm
